@@ -1,0 +1,21 @@
+//go:build verif
+
+package builder
+
+import "github.com/roddhjav/apparmor.d/pkg/util"
+
+func VerifRegex() map[string][][2]string {
+	return map[string][][2]string{
+		"regAbi4To3":          util.VerifList(regAbi4To3),
+		"regHotfix":           util.VerifList(regHotfix),
+		"regFullSystemPolicy": util.VerifList(regFullSystemPolicy),
+		"regFlags":            {{regFlags.String(), ""}},
+		"regProfileHeader":    {{regProfileHeader.String(), ""}},
+		"regHeaderLine":       {{regHeaderLine.String(), ""}},
+		"regAttachments":      {{regAttachments.String(), ""}},
+	}
+}
+
+// VerifReset empties the list of registered builders so that one process can
+// run several configurations.
+func VerifReset() { Builds = []Builder{} }
